@@ -142,6 +142,9 @@ EQUIVALENTS = [
     ('eq-allocate-else-keep-start', 'C10', 'src/freelist.rs', '            if prev == 0 || id - prev != 1 {\n                start = id;\n            }', '            if !(prev == 0 || id - prev != 1) {\n                // still inside the current run\n            } else {\n                start = id;\n            }'),
     ('eq-next-empty-check-len', 'C08', 'src/cursor.rs', '        if self.stack.is_empty() {\n            self.seek_first();\n        } else if', '        if self.stack.len() == 0 {\n            self.seek_first();\n        } else if'),
     ('eq-drop-guard-clause', 'C03', 'src/tx.rs', '        if !self.lock.writable() {\n            let mut open_txs', '        if self.lock.writable() {\n            return;\n        }\n        {\n            let mut open_txs'),
+    ('eq-commit-growth-test-flipped', 'C02', 'src/tx.rs', '            if current_size < required_size {', '            if required_size > current_size {'),
+    ('eq-commit-slot-by-if', 'C02', 'src/tx.rs', '                let meta_page_id = u64::from(self.meta.meta_page == 0);', '                let meta_page_id: u64 = if self.meta.meta_page == 0 { 1 } else { 0 };'),
+    ('eq-commit-flush-then-sync-block', 'C11', 'src/tx.rs', '            file.flush()?;\n            file.sync_all()?;\n        }\n', '            {\n                file.flush()?;\n            }\n            file.sync_all()?;\n        }\n'),
     ('eq-open-lock-binding', 'C13', 'src/db.rs', '        file.lock_exclusive()?;\n', '        let locked = file.lock_exclusive();\n        locked?;\n'),
 ]
 CANARY_EXPECT_NOT_KILLED = set(c[0] for c in EQUIVALENTS)
